@@ -488,8 +488,11 @@ def write_evidence(mod, prop, tier, seed, m, per_pass, kf_hit, violations, incon
         'coverage': cov, 'assumptions': list(getattr(mod, 'ASSUMPTIONS', [])),
         'wall_s': round(wall, 2), 'violations': len(violations),
     }
-    os.makedirs(os.path.join(ROOT, 'evidence'), exist_ok=True)
-    path = os.path.join(ROOT, 'evidence', prop + '.json')
+    evdir = os.path.join(ROOT, 'evidence')
+    if os.path.realpath(os.environ.get('VMON_REPO', '/repo')) != '/repo':
+        evdir = os.path.join(ROOT, 'replays', 'evidence-scratch')    # runs against a scratch copy are not evidence
+    os.makedirs(evdir, exist_ok=True)
+    path = os.path.join(evdir, prop + '.json')
     try:
         import jsonschema
         with open('/root/.vp/EVIDENCE.schema.json') as fh:
